@@ -30,7 +30,8 @@ func (e *FnEnc) havocAllKeeping(list string) {
 		}
 		c.Modifies = append(c.Modifies, ModItem{Src: it, E: x})
 	}
-	env := &specEnv{e: e, vars: map[string]Val{}, st: e.st, old: e.st0, fvs: e.fvPtrs}
+	// parameters, and the locals visible at the call (by source name, through debug information)
+	env := e.instrEnv(e.curBlock, e.curIdx)
 	for k, v := range e.params {
 		env.vars[k] = v
 	}
